@@ -86,6 +86,73 @@ theorem chain_order (p : TokPos) (chain : List (Bytes × Option Val)) :
     | err m => rw [hap] at h; cases h
     | unsupported => rw [hap] at h; cases h
 
+/-- a link of the `filter` tag's chain whose parameter is absent or a literal -/
+def litLink (name : Bytes) (param : Option Val) (p : TokPos) : Bytes × Option Expr :=
+  (name, param.map fun v => match v with
+    | .int i => Expr.int i p
+    | .str s => Expr.str s p
+    | .bool b => Expr.bool b p
+    | _ => Expr.bool false p)
+
+/-- the `filter` tag's chain is the same composition, for chains of any length -/
+theorem tag_chain_order (p : TokPos) (chain : List (Bytes × Option Val)) (hreg : ∀ c ∈ chain, cfg.regFilters.elem c.1 = true) :
+    ∀ (v r : V) (σ : ES) (fuel : Nat), fuel ≥ chain.length + 2 → applySeq chain v = some r →
+      (applyTagChain T cfg g fuel (chain.map fun c => litLink c.1 c.2 p) v).run σ = .ok r σ := by
+  induction chain with
+  | nil =>
+    intro v r σ fuel hf h
+    obtain ⟨n, rfl⟩ : ∃ n, fuel = n + 1 := ⟨fuel - 1, by simp at hf; omega⟩
+    simp only [applySeq, Option.some.injEq] at h
+    subst h
+    simp [applyTagChain, EStateM.run, pure, EStateM.pure]
+  | cons c rest ih =>
+    intro v r σ fuel hf h
+    obtain ⟨name, param⟩ := c
+    obtain ⟨n, rfl⟩ : ∃ n, fuel = n + 2 := ⟨fuel - 2, by simp at hf; omega⟩
+    have hname : cfg.regFilters.elem name = true := hreg (name, param) List.mem_cons_self
+    simp only [applySeq] at h
+    cases hap : applyFilter name v (paramVal param) with
+    | ok r1 =>
+      rw [hap] at h
+      have hrest := ih (fun c hc => hreg c (List.mem_cons_of_mem _ hc)) r1 r σ (n + 1) (by simp at hf ⊢; omega) h
+      simp only [List.map_cons, litLink]
+      rw [applyTagChain.eq_def]
+      simp only
+      have hp : ∀ (m : XM V), m.run σ = .ok (paramVal param) σ →
+          (m >>= fun pv => if (!cfg.regFilters.elem name) = true then xerr "filter not found"
+            else match applyFilter name v pv with
+            | .ok r => applyTagChain T cfg g (n + 1) (List.map (fun c => litLink c.fst c.snd p) rest) r
+            | .err m => xerr m
+            | .unsupported => xerr "filter outside the model" .unsupported).run σ = .ok r σ := by
+        intro m hm
+        rw [run_bind_ok hm]
+        simp only [hap, hname, Bool.not_true, Bool.false_eq_true, if_false]
+        exact hrest
+      cases param with
+      | none => exact hp _ rfl
+      | some pv =>
+        cases pv <;> simp only [Option.map_some] <;> apply hp <;>
+          simp [paramVal, eval, EStateM.run, pure, EStateM.pure]
+    | err m => rw [hap] at h; cases h
+    | unsupported => rw [hap] at h; cases h
+
+/-- **`{% filter f1|f2 %}body{% endfilter %}` is the chain applied to the rendered body.**  If the
+    body renders (into its own buffer) to `out`, the tag writes the text of
+    `f2(f1(out, a1), a2)` — the same composition `chain_order` gives for `{{ v|f1:a1|f2:a2 }}` —
+    and nothing else. -/
+theorem filter_tag_is_chain_on_rendered_body (p tp : TokPos) (chain : List (Bytes × Option Val))
+    (hreg : ∀ c ∈ chain, cfg.regFilters.elem c.1 = true) (body : List Node) (fuel : Nat) (hf : fuel ≥ chain.length + 2)
+    (σ σ1 : ES) (out : Bytes) (r : V)
+    (hbody : (buffered (execNodes T cfg g fuel body)).run σ = .ok out σ1)
+    (hseq : applySeq chain (mkV (.str out)) = some r) :
+    (execNode T cfg g (fuel + 1) (.tagFilter (chain.map fun c => litLink c.1 c.2 p) body tp)).run σ =
+      .ok () { σ1 with out := σ1.out ++ r.v.toS } := by
+  unfold execNode
+  simp only []
+  rw [run_bind_ok hbody]
+  rw [run_bind_ok (tag_chain_order T cfg g p chain hreg (mkV (.str out)) r σ1 fuel hf hseq)]
+  rfl
+
 /-- **Unknown filters are compile errors**: a name that is not registered is
     refused wherever `parseFilter` is reached. -/
 theorem unknown_filter_is_compile_error (fuel : Nat) (p : PS) (idTok : Tok) (rest : List Tok)
